@@ -5,6 +5,19 @@ import concurrent.futures, fcntl, os, re, resource, shutil, subprocess, time, ha
 from common import CACHE, VERIF, REPO, REPLAY_DIR, env_offline, log, scratch
 
 KANI_CRATE = os.path.join(VERIF, "kani")
+if os.path.realpath(REPO) != "/repo":
+    # checks redirected to another checkout (VERIF_REPO): private copy of the harness crate pointing at it, private build dirs
+    import shutil as _sh
+    _priv = os.path.join(scratch(), "kani-crate")
+    if not os.path.exists(_priv):
+        _sh.copytree(KANI_CRATE, _priv, ignore=_sh.ignore_patterns("target"))
+        _ct = os.path.join(_priv, "Cargo.toml")
+        _txt = open(_ct).read().replace('path = "/repo"', 'path = "%s"' % os.path.realpath(REPO))
+        with open(_ct, "w") as _f:
+            _f.write(_txt)
+    KANI_CRATE = _priv
+    CACHE = os.path.join(scratch(), "cache")
+    os.makedirs(CACHE, exist_ok=True)
 CFG_FEATURES = {"std": ["--features", "std"], "alloc": ["--features", "alloc"], "none": []}
 KANI_FLAGS = ["-Z", "stubbing", "--no-assertion-reach-checks"]
 
